@@ -11,13 +11,16 @@ import core
 from core import fbits_raw, fbits
 
 MODULE = "DfolsVerif.Properties.C06"
-BUILD_TARGETS = ["DfolsVerif.Driver.ClipDrv"]
+BUILD_TARGETS = ["DfolsVerif.Driver.ClipDrv", "DfolsVerif.Driver.SfistaDrv"]
 def pre_build(ctx):
     import gen_hcalls
+    import gen_sfista
     ctx.cov["regulariser_calls_in_repo"] = gen_hcalls.regenerate(ctx)
+    gen_sfista.regenerate(ctx)
 
 
-THEOREMS = ["Dfols.C06.C06_src_h_calls", "Dfols.C06.C06_box_frame", "Dfols.C06.C06_old_wrong_box", "Dfols.C06.C06_args_passthrough"]
+THEOREMS = ["Dfols.C06.C06_src_h_calls", "Dfols.C06.C06_box_frame", "Dfols.C06.C06_old_wrong_box", "Dfols.C06.C06_args_passthrough",
+            "Dfols.C06.C06_sfista_parameters", "Dfols.C06.C06_sfista_returns_bound_names"]
 TRUSTED_EXTRA = [
     "PARTIAL: convergence to F* within 1e-3(1+F*) and the success flag are NOT proved (outer iteration + S-FISTA with rounding): end-to-end search only",
     "oracles: FISTA with the exact prox of lambda*|x|_1 + box (20000 iterations); L-BFGS-B on the 1e-14-smoothed L2-norm regulariser",
@@ -82,8 +85,41 @@ def instance(rng):
     # option variants under which the stored objective of a point is recomputed: sample averaging (a deterministic objective
     # sampled twice) and soft restarts that append points to a full interpolation set
     variant = "nsamples2" if u < 0.15 else ("soft-restarts-increase-npt" if u < 0.3 else ("momentum-extra-steps" if (u < 0.42 and bounded) else "default"))
-    return dict(n=n, m=m, A=A, b=b, lam=lam, x0=x0, kind=kind, bounded=bounded, lo=lo, hi=hi, with_args=bool(rng.random() < 0.5),
+    with_args = bool(rng.random() < 0.5)
+    if u >= 0.82:
+        return near_face_instance(rng, with_args)
+    return dict(n=n, m=m, A=A, b=b, lam=lam, x0=x0, kind=kind, bounded=bounded, lo=lo, hi=hi, with_args=with_args,
                 variant=variant)
+
+
+def near_face_instance(rng, with_args):
+    """L1-regularised fit in a box whose faces pass CLOSE to the regularised minimiser on the side where h decreases (towards 0)
+    without being active there, started from inside the box, with the documented 'momentum' extra regression steps: the flipped
+    momentum directions then cross those faces, so a stored objective whose h part is taken at an unclipped point shows up.
+    On the unchanged tree these runs end with flag 0 at F* (0 of 300 instances otherwise when the family was introduced), so
+    they are judged in full."""
+    n = int(rng.integers(2, 5))
+    m = n + int(rng.integers(1, 4))
+    U, _ = np.linalg.qr(rng.normal(size=(m, m)))
+    V, _ = np.linalg.qr(rng.normal(size=(n, n)))
+    A = U[:, :n] @ np.diag(10 ** rng.uniform(-0.3, 0.3, size=n)) @ V.T
+    xt = rng.choice([-1.0, 1.0], size=n) * rng.uniform(1.0, 2.5, size=n)
+    b = A @ xt + 0.1 * rng.normal(size=m)
+    lam = float(10 ** rng.uniform(-0.5, 0.3))
+    big = 1e20 * np.ones(n)
+    xs, _ = fista_l1_box(A, b, lam, -big, big)
+    lo, hi, x0 = xs - 3.0, xs + 3.0, xs.copy()
+    for i in range(n):
+        sg = 1.0 if xs[i] > 0 else -1.0
+        gap = rng.uniform(0.02, 0.08)
+        if abs(xs[i]) > 0.3:
+            if sg > 0:
+                lo[i] = xs[i] - gap
+            else:
+                hi[i] = xs[i] + gap
+        x0[i] = xs[i] + sg * rng.uniform(0.3, 0.9)
+    return dict(n=n, m=m, A=A, b=b, lam=lam, x0=x0, kind="l1", bounded=True, lo=lo, hi=hi, with_args=with_args,
+                variant="momentum-near-face", npt=(n + 1 if rng.random() < 0.5 else 2 * n + 1))
 
 
 class Sentinel:
@@ -140,6 +176,10 @@ def run_instance(dfols, I):
         kw["npt"] = 2 * I["n"] + 1
         kw["user_params"] = {"regression.num_extra_steps": 2, "regression.momentum_extra_steps": True}
         kw["maxfun"] = 60 * (I["n"] + 1)
+    elif I.get("variant") == "momentum-near-face":
+        kw["npt"] = I["npt"]
+        kw["user_params"] = {"regression.num_extra_steps": 2, "regression.momentum_extra_steps": True}
+        kw["maxfun"] = 60 * (I["n"] + 1)
     np.random.seed(0)
     try:
         s = core.with_alarm(90, dfols.solve, lambda x: A @ x - b, I["x0"], h=h, lh=lh, prox_uh=prox, do_logging=False, **kw)
@@ -148,9 +188,57 @@ def run_instance(dfols, I):
         return None, calls, e
 
 
+def sfista_parameters(ctx, dfols):
+    """(c) the TRANSLATED parameter block of ctrsbox_sfista, run in IEEE doubles by the Lean driver, against the real function:
+    the number of loop iterations (= prox calls / 2: gradient_Fu is evaluated twice per iteration) and the smoothing parameter u
+    (second argument of every prox call), bit for bit."""
+    import dfols.trust_region as TR
+    lines, want = [], []
+    for i in range(ctx.scale(60, 600)):
+        rng = np.random.default_rng([ctx.seed, 608, i])
+        n = int(rng.integers(1, 5))
+        B = rng.normal(size=(n, n))
+        H = (B + B.T) * float(10 ** rng.uniform(-2, 1)) if rng.random() < 0.8 else np.zeros((n, n))
+        g = rng.normal(size=n)
+        xopt = rng.normal(size=n)
+        delta = float(10 ** rng.uniform(-6, 1))
+        lam = float(10 ** rng.uniform(-2, 1))
+        lh = lam * float(np.sqrt(n))
+        func_tol = float(10 ** rng.uniform(-4, 0)) * delta
+        max_iters = int(rng.choice([1, 2, 7, 40, 500]))
+        scale = float(rng.choice([1.0, 2.0, 3.5]))
+        us = []
+
+        def prox(x, u):
+            us.append(float(u))
+            return np.sign(x) * np.maximum(np.abs(x) - lam * u, 0.0)
+        lo, hi = xopt - 1.0, xopt + 1.0
+        TR.ctrsbox_sfista(xopt, g, H, [lambda w: np.minimum(np.maximum(w, lo), hi)], delta, lambda x: lam * float(np.sum(np.abs(x))), lh, prox,
+                          func_tol=func_tol, max_iters=max_iters, sfista_iters_scale=scale)
+        kH = float(np.linalg.norm(H, 2))
+        lines.append("sfista %d %s" % (max_iters, " ".join(fbits_raw(v) for v in (scale, delta, lh, kH, func_tol))))
+        want.append((len(us) // 2 if len(us) % 2 == 0 else -1, fbits(us[0]) if us else None, len(set(us))))
+        ctx.seen(("c06p", i))
+    out = core.run_driver(lines, main="SfistaMain.lean") if lines else []
+    mism = 0
+    iters = {}
+    for l, o, w in zip(lines, out, want):
+        parts = o.split()
+        iters[w[0]] = iters.get(w[0], 0) + 1
+        if len(parts) != 3 or int(parts[0]) != w[0] or parts[1] != w[1] or w[2] != 1:
+            mism += 1
+            if mism <= 3:
+                ctx.broke("correspondence:sfista-parameter-block", {"line": l, "lean(K,u,l)": o, "real(K,u,distinct u)": list(w)})
+    ctx.cov["sfista_parameter_correspondence"] = {"calls_compared": len(lines), "mismatches": mism,
+                                                  "iteration_counts_seen": {str(k): v for k, v in sorted(iters.items())}}
+    if lines:
+        ctx.add_sample({"kind": "sfista parameter block", "line": lines[0], "lean": out[0], "real": list(want[0])})
+
+
 def correspondence(ctx):
     dfols = core.import_dfols()
     import dfols.controller as C
+    sfista_parameters(ctx, dfols)
     captured = []
     real = C.ctrsbox_sfista
 
